@@ -19,9 +19,11 @@ CLAIMED = {
        "Unlock..select window, channel identities); TLC checks FIFO, no-lost-wake-up, bounded look-ahead and liveness "
        "exhaustively, refutes the weakened variants (channel read after unlock) and exports every schedule to the bound; "
        "the schedules are replayed on the real clientSegmentQueue with goroutines gated at the hook points and the "
-       "observed quiescent states are validated by TLC (SegQueueTrace.tla).",
-  note="one producer, one consumer; goroutine wait states read from the Go runtime; end-to-end look-ahead (server "
-       "speeds) is covered by the client harness when present",
+       "observed quiescent states are validated by TLC (SegQueueTrace.tla). End to end, the real Client is run against the stub "
+       "server at several server / application speeds (finished and live playlists of 6-30 segments, blocking or slow callbacks) "
+       "and TLC checks on the request / delivery log that downloads never run more than 3 segments ahead (ClientRun.tla).",
+  note="one producer, one consumer; goroutine wait states read from the Go runtime; gated-schedule alarms must reproduce "
+       "in re-runs of the same schedule before they are reported",
   technique="TLA+ model + TLC safety/liveness; TLC-generated schedules replayed with gated goroutines; TLC trace validation",
   ref="7 C20"),
 }
